@@ -51,6 +51,32 @@ theorem read_open_quoted (p : Prog) (hwf : progWf p = true) (ts : List Bool) (hc
   rw [read_kth p hwf ts hc k hk hk', hit, hs]
   rfl
 
+/-- **read_targets_left_to_right.**  A READ statement over scalar and array-element targets (subscript =
+    scalar variable + constant) delivers the items strictly left to right: the final store is the fold of
+    `assign` over (target, item) pairs, each subscript being evaluated in the store that already holds the
+    items of the earlier targets of the same statement. -/
+theorem read_targets_left_to_right (p : Prog) (hwf : progWf p = true) (conv : Bytes → Nat) (st : Store)
+    (tgs : List (Bool × Target)) (hc : CompatAll (tgs.map (·.1)) (allItems p)) :
+    (readAssign true (renderProg p) conv 0 st tgs).1 =
+      (List.zip (tgs.map (·.2)) (List.zipWith specVal (tgs.map (·.1)) (allItems p))).foldl
+        (fun s x => assign conv s x.1 x.2) st ∧
+    (readAssign true (renderProg p) conv 0 st tgs).2.1 = none := by
+  obtain ⟨c', hr, -⟩ := start_run p hwf (tgs.map (·.1)) hc
+  rw [readAssign_of_readVars _ conv tgs 0 st _ _ hr]
+  exact ⟨rfl, rfl⟩
+
+/-- `READ N, A(N+off)`: the element is selected by the value of N that this very statement has just read -/
+theorem read_index_then_element (p : Prog) (hwf : progWf p = true) (conv : Bytes → Nat) (st : Store)
+    (n a off : Nat) (i1 i2 : Item) (rest : List Item) (hit : allItems p = i1 :: i2 :: rest)
+    (h1 : i1.isNum = true) (h2 : i2.isNum = true) :
+    let out := readAssign true (renderProg p) conv 0 st [(false, .scalar n), (false, .elem a n off)]
+    out.1.scal n = .num i1.sval ∧ out.1.arr a (conv i1.sval + off) = .num i2.sval ∧ out.2.1 = none := by
+  have hc : CompatAll ([(false, Target.scalar n), (false, Target.elem a n off)].map (·.1)) (allItems p) := by
+    rw [hit]; exact ⟨by simpa [Compat] using h1, by simpa [Compat] using h2, trivial⟩
+  obtain ⟨hst, herr⟩ := read_targets_left_to_right p hwf conv st _ hc
+  simp only [hst, herr, hit]
+  simp [specVal, assign, put, slotOf, subscript]
+
 /-- **restore_spec.** RESTORE (whatever the pointer was) sets the pointer so that the following READs
     return the items from the first one on. -/
 theorem restore_spec (p : Prog) (hwf : progWf p = true) (tbl : List (Nat × Nat)) (ts : List Bool)
@@ -255,6 +281,22 @@ theorem rem_byte_in_string_old_counterexample :
     let code : Bytes := [0,125,18,10,0,145,32,34,143,34,58,32,132,32,53, 0,0,0]
     readEntry false code 0 false = .err 4 none none ∧
     readEntry true code 0 false = .ok (.num [53]) 15 := by
+  decide
+
+def digitsVal (w : Bytes) : Nat := w.foldl (fun acc c => acc * 10 + (c - 48)) 0
+
+/-- `10 DATA 3,30 / 20 READ N, A(N)` with N = 9 before: a READ whose variable list is parsed completely
+    before the first item is assigned (`readAssignEager`, not the code) stores 30 in A(9); the code's loop
+    (`readAssign`) stores it in A(3). -/
+theorem eager_var_list_counterexample :
+    let prog : Prog := [(.line 1 1 10 0, .data [32] (.unq [] [51] []) [.unq [] [51, 48] []]),
+                        (.line 1 1 20 0, .other [.plain 135, .plain 32, .plain 78])]
+    let st : Store := ⟨fun _ => .num [57], fun _ _ => .num []⟩
+    let tgs : List (Bool × Target) := [(false, .scalar 0), (false, .elem 0 0 0)]
+    (readAssignEager true (renderProg prog) digitsVal 0 st tgs).1.arr 0 9 = .num [51, 48] ∧
+    (readAssignEager true (renderProg prog) digitsVal 0 st tgs).1.arr 0 3 = .num [] ∧
+    (readAssign true (renderProg prog) digitsVal 0 st tgs).1.arr 0 3 = .num [51, 48] ∧
+    (readAssign true (renderProg prog) digitsVal 0 st tgs).1.arr 0 9 = .num [] := by
   decide
 
 /-! ### non-vacuity: a concrete layout satisfies the hypotheses, and the theorems compute on it -/
